@@ -241,6 +241,7 @@ func buildTrie(kv map[string][]byte) *c13trie {
 
 func c13Keys(rs *prng, n int) [][]byte {
 	var keys [][]byte
+	seen := map[string]bool{}
 	for i := 0; i < n; i++ {
 		k := rs.bytes(32)
 		if i > 0 && rs.chance(40) {
@@ -252,6 +253,12 @@ func c13Keys(rs *prng, n int) [][]byte {
 				k[l-1] = p[l-1]&0xf0 | byte(rs.intn(16)) // diverge inside a byte: odd-length extension keys
 			}
 		}
+		for seen[string(k)] {
+			// a 31-byte shared prefix leaves one random byte: the same key twice would silently replace
+			// the earlier account / slot in the trie
+			k[31]++
+		}
+		seen[string(k)] = true
 		keys = append(keys, k)
 	}
 	return keys
